@@ -36,8 +36,8 @@ def _sync(title, oracle, ref):
 CHECKS.update({
     "C18": dict(
         category="exploration",
-        technique="runtime monitoring: hook-fed independent totals (interval hooks of dr_options + the generator's own dependency structure) compared with the recorder's root node and its .stat report over a grid of contraction settings; serial multi-worker simulator driving the public dr_*__ entry points; ASan/UBSan",
-        text=("Generated well-nested programs (task/section grammar with 'other' intervals, depth<=6, fan-out<=6, 1-16 simulated workers, migrations at every runtime call, busy waits crossing the thresholds) are recorded under "
+        technique="runtime monitoring: hook-fed independent totals (interval hooks of dr_options + the generator's own dependency structure) compared with the recorder's root node and its .stat report over a grid of contraction settings; multi-worker simulator (serial / OS thread per task / virtual time) driving the public dr_*__ entry points; ASan/UBSan",
+        text=("Generated well-nested programs (task/section grammar with 'other' intervals, depth<=6, fan-out<=6, 1-16 simulated workers, migrations at every runtime call, busy waits crossing the thresholds; a third of the programs with one OS thread per task and worker tokens, a third with per-task virtual clocks fed through the guarded clock hook so that intervals of different tasks overlap) are recorded under "
               "up to ten contraction settings each; work, critical path, interval counts and edge totals by kind reported by the recorder (root node and .stat) must equal the totals computed from the complete interval "
               "sequence delivered to the user hooks, T_inf<=T_1, and counts must agree across settings of the same program."),
         design_ref="DESIGN.md section 5 C18",
@@ -53,7 +53,7 @@ CHECKS.update({
         category="translation_validation",
         technique="differential execution: a seeded determinate pthread program interpreter run natively and redirected by ld --wrap and by LD_PRELOAD (hooked library builds, 1-16 workers, delay profiles, ASan); stdout and exit status compared",
         text=("Each generated program (spawn trees with attribute objects on painted memory, detach, pthread_exit, self/equal; counters under dynamically and statically initialised mutexes whose first use is raced "
-              "by 2-32 threads; condition-variable bounded buffer; barrier phases with serial count, spin lock, once; 24 keys with destructors) is run natively twice (determinacy check) and through both redirection "
+              "by 2-32 threads; condition-variable bounded buffer; barrier phases with serial count, spin lock taken by lock and by trylock loops, once; 24 keys with destructors; a determinate single-threaded call sequence whose return codes are printed) is run natively twice (determinacy check) and through both redirection "
               "mechanisms; outputs must be identical, a crash/deadlock/hang on the wrapped side is a disagreement. Translation validation is the right level: the property is equality of observable results between two "
               "implementations of the same API for every program of a class, sampled over generated programs and schedules."),
         design_ref="DESIGN.md section 5 C16",
@@ -88,7 +88,7 @@ CHECKS.update({
         category="exploration",
         technique="runtime monitoring: one process per configuration/history with counters of workers, OS threads (/proc/self/task) and tids; generated malformed environments with exit-status/effective-value oracle; reference-parser differential on the CPU-list parser under ASan/UBSan",
         text=("Histories of init/work/fini cycles with worker counts 1..64 requested three ways, first-use races of up to 9 OS threads (exactly one initialisation), OS-thread counts before/after init and after fini, "
-              "worker indices within range, finalisation from a migrated main thread; ~260 (thorough 3000) generated environments with malformed values for every configuration variable must start, run a fork-join, "
+              "worker indices within range, finalisation from a migrated main thread (watched: it must return), a third of the histories with worker binding and a different MYTH_CPU_LIST every cycle (affinity masks vs docs/bind.txt); each of 31 public entry points as the very first call into the library (implicit initialisation, exactly one); ~260 (thorough 3000) generated environments with malformed values for every configuration variable must start, run a fork-join, "
               "finalise and report the documented fallback values; the CPU-list parser is compared with an independent reference parser on 8e4 (thorough 8e6) grammar-generated and mutated strings."),
         design_ref="DESIGN.md section 5 C15",
     ),
@@ -140,22 +140,22 @@ CHECKS.update({
               "Exploration is the right level; behaviour under a weakened fence *instruction* is out of reach on an x86 host (DESIGN 8.1)."),
         design_ref="DESIGN.md section 5 C02, section 8.1",
     ),
-    "C04": _sync("Random lock/trylock/timedlock mixes by 2-200 threads on 1-4 mutexes with an occupancy witness and a plain counter in every critical section; "
+    "C04": _sync("Random lock/trylock/timedlock mixes (deadlines one hour and 0-150 us away) by 2-200 threads on 1-4 mutexes with an occupancy witness and a plain counter in every critical section; "
                  "failed trylocks are checked offline against the totally ordered acquisition history (a failure is a violation only if the mutex was provably free throughout the call); "
                  "trylock is bracketed by the non-blocking check; a progress program shows a blocked locker gives its worker away.",
                  "occupancy witness + offline interval/sequence rule over stamped lock/trylock/unlock history + non-blocking bracket", "DESIGN.md section 5 C04"),
-    "C05": _sync("Bounded buffer, turnstile, broadcast gate and ping-pong programs whose completion and counters are determinate only if no wake-up is lost; "
+    "C05": _sync("Bounded buffer (signals under the mutex, after the unlock, and state-less signals without it), turnstile, broadcast gate, ping-pong and token-release programs whose completion and counters are determinate only if no wake-up is lost; "
                  "every wait return checks the holder witness and that a signal/broadcast was issued after the wait began (no banked or spurious wake-up).",
                  "determinate producer/consumer patterns with unique ids, holder witness, signal-generation rule", "DESIGN.md section 5 C05"),
-    "C06": _sync("N in {1..200} participants over thousands of consecutive rounds with stragglers and racers; each participant counts its arrival before the wait and checks arrived[k]==N, arrived[k+1]<=N and exactly one serial indicator per round.",
+    "C06": _sync("N in {1..200, 1200, 3000} participants over thousands of consecutive rounds with stragglers and racers; each participant counts its arrival before the wait and checks arrived[k]==N, arrived[k+1]<=N and exactly one serial indicator per round.",
                  "per-round arrival counters and serial-indicator count checked at every return", "DESIGN.md section 5 C06"),
     "C07": _sync("Join counters with N from 0 to 65536 (field-split probes up to 2^31-1), 0-64 waiters arriving before/between/after the decrements, and random DAG programs whose nodes assert their predecessors are done; "
                  "decs_started>=N at every wait return, waits issued after the last dec returned are bracketed by the non-blocking check.",
                  "decs-started counter at wait return, DAG predecessor assertions, non-blocking bracket", "DESIGN.md section 5 C07"),
-    "C08": _sync("Thousands of two-way rendezvous per thread pair over the same two variables following the documented announce/clear protocol, plus single-slot SPSC channels with numbered items; "
+    "C08": _sync("Thousands of two-way rendezvous per thread pair over the same two variables following the documented announce/clear protocol, single-slot SPSC channels with numbered items, and rotation programs in which 2-6 threads take turns as the waiter of one variable (including very late waiters with bystander threads); "
                  "each wait return is matched with the stamp and sequence number of the signal that must have caused it and the per-side resume count.",
                  "sequence-numbered rendezvous log (one resume per rendezvous, after its signal)", "DESIGN.md section 5 C08"),
-    "C09": _sync("Single-slot mailboxes with 1-8 producers, 1-8 consumers and plain lock/unlock users; status and exclusivity asserted under the lock; consumed multiset == produced multiset.",
+    "C09": _sync("Single-slot mailboxes with 1-8 producers, 1-8 consumers and plain lock/unlock users, and multi-item mailboxes (several sleepers per status, marks that leave the status unchanged); status and exclusivity asserted under the lock; consumed multiset == produced multiset.",
                  "unique item ids (exactly-once), status/occupancy assertions under the lock", "DESIGN.md section 5 C09"),
     "C14": _sync("1-64 once-controls with initialisers that yield, block on a mutex, create and join threads, called by 2-500 concurrent threads; every caller checks done==1 and ran==1 right after myth_once returns; later calls are bracketed by the non-blocking check.",
                  "ran/done counters checked at every return", "DESIGN.md section 5 C14"),
